@@ -43,6 +43,22 @@ fn quantise(w: f64, dyadic: bool, t: &mut Tape) -> f64 {
 pub fn fit_weights(t: &mut Tape, g: &mut G, dyadic: bool, min_omega: f64, need_pos_dod: bool, attempts: usize) -> bool {
     let ne = g.nedges();
     let l = g.num_loops();
+    // constructive first attempt: the interval of uniform weights for which the reference accepts
+    if attempts > 2 && t.chance(0.6) {
+        if let Some((lo, hi)) = uniform_weight_interval(g, min_omega) {
+            let f = t.uniform(0.08, 0.92);
+            let w0 = lo + f * (hi - lo);
+            for spread in [0.25, 0.08, 0.0] {
+                let ws: Vec<f64> = (0..ne).map(|_| w0 * (1.0 + spread * t.uniform(-1.0, 1.0))).collect();
+                g.weights = ws.into_iter().map(|w| quantise(w, dyadic, t)).collect();
+                if g.min_proper_omega() > min_omega && (!need_pos_dod || g.dod() > min_omega.max(1e-3)) {
+                    return true;
+                }
+            }
+        } else {
+            return false; // no uniform weight works; for massless graphs this means a scaleless subgraph
+        }
+    }
     for att in 0..attempts {
         if att + 1 == attempts && attempts > 2 {
             // last resort: heavy weights (accepted whenever no proper subset is mass-momentum spanning)
@@ -62,6 +78,35 @@ pub fn fit_weights(t: &mut Tape, g: &mut G, dyadic: bool, min_omega: f64, need_p
         }
     }
     false
+}
+
+/// open interval of uniform edge weights w for which every proper non-empty subset has omega > min_omega and dod > 0
+pub fn uniform_weight_interval(g: &G, min_omega: f64) -> Option<(f64, f64)> {
+    let ne = g.nedges();
+    let full = g.full();
+    let l = g.num_loops() as f64;
+    let dh = g.d as f64 / 2.0;
+    let mut lo = (l * dh + min_omega.max(1e-3)) / ne as f64;
+    let mut hi = f64::INFINITY;
+    for m in 1..full {
+        let k = (m as u64).count_ones() as f64;
+        let lm = g.loops(m) as f64;
+        if g.spanning(m) {
+            // omega = -w(G\m) + (L - l_m) D/2
+            let c = (l - lm) * dh - min_omega;
+            hi = hi.min(c / (ne as f64 - k));
+        } else {
+            lo = lo.max((lm * dh + min_omega) / k);
+        }
+    }
+    if hi == f64::INFINITY {
+        hi = lo + 1.5;
+    }
+    if lo * 1.0001 < hi {
+        Some((lo * 1.0001, hi * 0.9999))
+    } else {
+        None
+    }
 }
 
 // ------------------------------------------------------------------ G-graph: arbitrary multigraphs
@@ -172,8 +217,18 @@ pub fn gen_phys_graph(t: &mut Tape, max_e: usize, max_l: usize, min_omega: f64, 
             _ => true,
         })
         .collect();
+    // a massless self-loop is scaleless (no weights are accepted): give it a mass
+    for e in 0..ne {
+        if edges[e].0 == edges[e].1 {
+            massive[e] = true;
+        }
+    }
     let ks: Vec<usize> = [0usize, 2, 3, 4].into_iter().filter(|&k| k <= nv).collect();
     let mut k = *t.pick(&ks);
+    if !massive.iter().all(|&m| m) && t.chance(0.5) {
+        // massless parts need external momentum flowing through them: prefer many external vertices
+        k = *ks.last().unwrap();
+    }
     if k == 0 && !massive.iter().any(|&m| m) {
         if nv >= 2 {
             k = 2;
@@ -380,16 +435,38 @@ pub fn transform_routing(t: &mut Tape, sig: &mut Vec<Vec<isize>>, shifts: &mut V
     (done, flips, off)
 }
 
-pub fn gen_kin(t: &mut Tape, g: &G, max_ops: usize) -> Kin {
+/// free external momenta (all but the last external) and masses
+pub fn gen_kin_data(t: &mut Tape, g: &G) -> (Vec<Vec<f64>>, Vec<f64>) {
     let ne = g.nedges();
     let d = g.d;
-    let tree = random_tree(t, g);
     let nfree = g.externals.len().saturating_sub(1);
-    let free: Vec<Vec<f64>> = (0..nfree).map(|_| (0..d).map(|_| { let v = t.uniform(-2.0, 2.0); if v.abs() < 0.05 { 0.05 + v.abs() } else { v } }).collect()).collect();
-    let (mut sig, mut shifts, inflow) = base_routing(g, &tree, &free);
+    let free: Vec<Vec<f64>> = (0..nfree)
+        .map(|_| {
+            (0..d)
+                .map(|_| {
+                    let v = t.uniform(-2.0, 2.0);
+                    if v.abs() < 0.05 {
+                        0.05 + v.abs()
+                    } else {
+                        v
+                    }
+                })
+                .collect()
+        })
+        .collect();
     let masses: Vec<f64> = (0..ne).map(|e| if g.massive[e] { t.uniform(0.3, 2.0) } else { 0.0 }).collect();
+    (free, masses)
+}
+/// one routing (cycle basis + shifts) of given kinematic data
+pub fn gen_routing(t: &mut Tape, g: &G, free: &[Vec<f64>], masses: &[f64], max_ops: usize) -> Kin {
+    let tree = random_tree(t, g);
+    let (mut sig, mut shifts, inflow) = base_routing(g, &tree, free);
     transform_routing(t, &mut sig, &mut shifts, max_ops, true);
-    Kin { sig, shifts, masses, inflow }
+    Kin { sig, shifts, masses: masses.to_vec(), inflow }
+}
+pub fn gen_kin(t: &mut Tape, g: &G, max_ops: usize) -> Kin {
+    let (free, masses) = gen_kin_data(t, g);
+    gen_routing(t, g, &free, &masses, max_ops)
 }
 
 // ------------------------------------------------------------------ structured x-space points
@@ -531,4 +608,27 @@ pub fn gen_phys(t: &mut Tape, o: &PhysOpts) -> Option<Phys> {
     let kin = gen_kin(t, &g, o.max_ops);
     let (x, classes) = gen_point(t, &g, &o.profile);
     Some(Phys { g, kin, x, classes: classes.into_iter().map(String::from).collect() })
+}
+
+/// developer aid: acceptance statistics of the physical-graph generator
+pub fn genstats() {
+    let tapes = crate::engine::sample_tapes("genstats", 1, 20000, 200);
+    let mut tot = std::collections::BTreeMap::<String, (u32, u32)>::new();
+    for tp in &tapes {
+        let mut t = Tape::new(tp);
+        // replicate the structural part to classify
+        let mut t2 = Tape::new(tp);
+        let nv = t2.range(1, 5);
+        let r = gen_phys_graph(&mut t, 8, 5, 0.15, 6);
+        let key = match &r {
+            Some(g) => format!("nv={nv} ok mass={}{} ext={}", g.massive.iter().any(|&m| m) as u8, g.massive.iter().all(|&m| m) as u8, g.externals.len()),
+            None => format!("nv={nv} REJ"),
+        };
+        let e = tot.entry(key).or_default();
+        e.0 += 1;
+        let _ = &mut e.1;
+    }
+    for (k, v) in tot {
+        eprintln!("{k}: {}", v.0);
+    }
 }
